@@ -10,6 +10,8 @@ import NxsModel.Driver.Pad
 import NxsModel.Driver.Stream
 import NxsModel.Driver.Reasm
 import NxsModel.Driver.Config
+import NxsModel.Driver.ConfigExt
+import NxsModel.Driver.Requests
 import NxsModel.Driver.Handshake
 import NxsModel.Driver.Fanout
 import NxsModel.Driver.Lifecycle
@@ -24,6 +26,8 @@ def dispatch (toks : List String) : String :=
   match toks with
   | "frame" :: rest => (frameOp rest).getD "bad-op"
   | "recv" :: rest => (recvOp rest).getD "bad-op"
+  | "req" :: "hist" :: rest => (reqHistOp rest).getD "bad-op"
+  | "req" :: "sess" :: rest => (reqSessOp rest).getD "bad-op"
   | "req" :: rest => (reqOp rest).getD "bad-op"
   | "info" :: rest => (infoOpX rest).getD "bad-op"
   | "pad" :: rest => (padOp rest).getD "bad-op"
@@ -32,6 +36,7 @@ def dispatch (toks : List String) : String :=
   | "stream" :: rest => (streamOp rest).getD "bad-op"
   | "reasm" :: rest => (reasmOp rest).getD "bad-op"
   | "cfg" :: rest => (cfgOp rest).getD "bad-op"
+  | "cfgx" :: rest => (cfgxOp rest).getD "bad-op"
   | "hs" :: rest => (hsOp rest).getD "bad-op"
   | "fan" :: rest => (fanOp rest).getD "bad-op"
   | "life" :: rest => (lifeOp rest).getD "bad-op"
